@@ -62,7 +62,7 @@ def _divergent_opcodes():
         ops = set()
         try:
             for f in json.loads(FINDINGS_FILE.read_text()).get("findings", []):
-                if f.get("property") == "C06":
+                if f.get("property") == "C06" and f.get("status") == "known":
                     for o in f.get("where", {}).get("opcode", []) or []:
                         ops.add(int(o, 16))
         except Exception:
